@@ -1,26 +1,77 @@
 ID = 'C12'
+# shim=True: <unordered_map> resolves to engine/shim/unordered_map; -DVERIF_UMAP_NODES selects the node-based variant
+# (every element its own operator-new node, table of VERIF_UMAP_CAP node pointers). The native "real" build uses libstdc++.
 UNITS = {'lru': dict(wrap='wrap.cc', shim=True, new_block=64, cxxflags=['-DVERIF_UMAP_CAP=4', '-DVERIF_UMAP_NODES'])}
-BOUNDS = 'TODO'
-STUBS = []
-OUTSIDE = []
-ASSUMPTIONS = []
+
+BOUNDS = ('LRUSet<int> and LRUMap<int,int>, two instances each, keys {0,1,2}, sizes {0,1,2}, values {0,1,2}. '
+          '(1) histories from two fresh instances: every sequence of k operations (k<=3 quick, k<=4 thorough; at k=4 only the '
+          'target-instance patterns listed in the query names) over the full alphabet (set: insert, emplace, erase, touch(k), '
+          'touch(k,size), touch(k,negative), change_size, peek, evict_object, clear, swap; map: insert(K&&,V&&), emplace, erase, '
+          'at, item_size, change_size(touch=true/false), touch x3, evict_object, clear, swap, empty), symbolic key/size/value, '
+          'target instance per step concrete (all 2^k patterns for k<=3), then a full drain of both instances. '
+          '(2) inductive step: EVERY well-formed state of the two instances with up to 3 entries each (symbolic distinct keys, '
+          'sizes, values, recency order and hash-map insertion order; state assembled directly from nodes and links), ONE '
+          'symbolic operation on instance 0 (swap partner: instance 1), then the complete link structure of both instances is '
+          'compared with the reference => histories of any length over 3 keys. '
+          '(3) heap: CBMC pointer checks (use-after-free, invalid free, double free) in every query; --memory-leak-check on '
+          'exception-free histories/steps that end with destruction of populated instances.')
+STUBS = ['std::unordered_map -> engine/shim/unordered_map_nodes: node-per-element model (operator new/delete per element, stable addresses, '
+         'swap exchanges node ownership), linear search in a 4-entry node table instead of hashing/buckets; capacity overflow is an assertion failure '
+         '(never reached with 3 keys)']
+OUTSIDE = ['histories longer than 4 operations that are not covered by the inductive step argument (more than 3 distinct keys per instance, sizes/values outside {0,1,2})',
+           'at k=4 only selected target-instance patterns (k<=3: all)',
+           'key/value types other than int (non-trivial copy/move, e.g. std::string)',
+           "libstdc++'s hash table itself (rehashing, bucket iteration)",
+           'LRUMap::insert(const KeyT&, const ValueT&, size_t) and LRUMap::at(const KeyT&) const: neither compiles when instantiated (NOTES.md), so no history can call them',
+           '--memory-leak-check only on histories in which no exception is thrown (the engine exception model never frees exception objects)',
+           'the inductive step assumes that behaviour does not depend on which table slot of the shim a node occupies beyond the symbolic insertion order (holes left by erase are not part of the pre-state family)']
+ASSUMPTIONS = ['the reference semantics are those pinned by LRUSetTest/LRUMapTest: LRUSet::insert/emplace of an existing key replace the size and refresh recency; '
+               'LRUMap::emplace of an existing key changes nothing; LRUSet::change_size and LRUMap::item_size / change_size(touch=false) do not refresh recency; every other successful keyed call does']
+
+_SET_OPS = 'insert, emplace, erase, touch x3, change_size, peek, evict_object, clear, swap'
+_MAP_OPS = 'insert(K&&,V&&), emplace, erase, at, item_size, change_size x2, touch x3, evict_object, clear, swap, empty'
+
 
 def queries(tier):
     qs = []
-    for cls in ('set', 'map'):
-        for k in ([1, 2, 3] if tier == 'quick' else [1, 2, 3, 4]):
-            for w in range(1 << k):
-                qs.append(dict(name='%s_hist_k%d_w%d' % (cls, k, w), unit='lru', harness='h_%s.c' % cls, defs={'K': k, 'WHICH': w}, unwind=6, timeout=1500, mem_gb=10,
-                           object_bits=12, desc='history', bounds='k=%d' % k))
+    quick = (tier == 'quick')
+    # (1) bounded histories from fresh instances
+    k4_patterns = {'set': [0, 5, 6, 10], 'map': [5, 10]}
+    for cls, ops in (('set', _SET_OPS), ('map', _MAP_OPS)):
+        cells = [(k, w) for k in (1, 2) for w in range(1 << k)]
+        if quick:
+            cells += [(3, 2), (3, 5)]
+        else:
+            cells += [(3, w) for w in range(8)] + [(4, w) for w in k4_patterns[cls]]
+        for k, w in cells:
+            pat = ''.join(str((w >> i) & 1) for i in range(k))
+            qs.append(dict(name='%s_hist_k%d_w%d' % (cls, k, w), unit='lru', harness='h_%s.c' % cls, defs={'K': k, 'WHICH': w}, unwind=6,
+                           timeout=2400, mem_gb=10, object_bits=12, cost=10 ** k,
+                           desc='%s: every history of %d operations (%s) on two fresh instances, operation i applied to instance %s: return values, size(), count() after each step and the final drain order equal the reference recency list' % (
+                               'LRUSet<int>' if cls == 'set' else 'LRUMap<int,int>', k, ops, pat),
+                           bounds='k=%d operations, 3 keys, sizes/values 0..2, target pattern %s' % (k, pat)))
+    # (2) inductive step from every well-formed state
+    step_quick = [(0, 0), (1, 0), (2, 1), (3, 2), (0, 3)]
+    for cls, ops in (('set', _SET_OPS), ('map', _MAP_OPS)):
         for m0 in range(4):
             for m1 in range(4):
-                qs.append(dict(name='%s_step_m%d_m%d' % (cls, m0, m1), unit='lru', harness='h_%s_step.c' % cls, defs={'M0': m0, 'M1': m1}, unwind=16, timeout=1500, mem_gb=10,
-                           object_bits=12, desc='step', bounds='m0=%d m1=%d' % (m0, m1)))
+                if quick and (m0, m1) not in step_quick:
+                    continue
+                qs.append(dict(name='%s_step_m%d_m%d' % (cls, m0, m1), unit='lru', harness='h_%s_step.c' % cls, defs={'M0': m0, 'M1': m1}, unwind=16,
+                               timeout=2400, mem_gb=10, object_bits=12, cost=30 * (m0 + m1 + 1),
+                               desc='%s inductive step: any well-formed state with %d / %d entries in instance 0 / 1, one symbolic operation (%s): results and the complete link structure of both instances equal the reference' % (
+                                   'LRUSet<int>' if cls == 'set' else 'LRUMap<int,int>', m0, m1, ops),
+                               bounds='pre-state: %d and %d entries, symbolic keys/sizes/values/recency order/insertion order; 1 operation' % (m0, m1)))
+    # (3) heap hygiene: leak check at exit on exception-free runs that destroy populated instances
     for cls in ('set', 'map'):
-        for k, w in ((2, 1), (3, 2)):
-            qs.append(dict(name='%s_leak_hist_k%d_w%d' % (cls, k, w), unit='lru', harness='h_%s.c' % cls, defs={'K': k, 'WHICH': w, 'NODRAIN': 1, 'NOTHROW': 1}, unwind=6, timeout=1500, mem_gb=10,
-                       object_bits=12, flags=['--memory-leak-check'], desc='history, destroyed populated, leak check', bounds='k=%d' % k))
-        for m0, m1 in ((2, 1), (3, 3)):
-            qs.append(dict(name='%s_leak_step_m%d_m%d' % (cls, m0, m1), unit='lru', harness='h_%s_step.c' % cls, defs={'M0': m0, 'M1': m1, 'NOTHROW': 1}, unwind=16, timeout=1500, mem_gb=10,
-                       object_bits=12, flags=['--memory-leak-check'], desc='step, destroyed populated, leak check', bounds='m0=%d m1=%d' % (m0, m1)))
+        for k, w in ((2, 1), (3, 2)) if not quick else ((2, 1),):
+            qs.append(dict(name='%s_leak_hist_k%d_w%d' % (cls, k, w), unit='lru', harness='h_%s.c' % cls, defs={'K': k, 'WHICH': w, 'NODRAIN': 1, 'NOTHROW': 1},
+                           unwind=6, timeout=2400, mem_gb=10, object_bits=12, flags=['--memory-leak-check'], cost=10 ** k,
+                           desc='%s: exception-free histories of %d operations, instances destroyed while populated: no leak at exit (plus all checks of the history harness)' % (cls, k),
+                           bounds='k=%d, scripts in which no operation throws' % k))
+        for m0, m1 in ((2, 1), (3, 3)) if not quick else ((2, 1),):
+            qs.append(dict(name='%s_leak_step_m%d_m%d' % (cls, m0, m1), unit='lru', harness='h_%s_step.c' % cls, defs={'M0': m0, 'M1': m1, 'NOTHROW': 1},
+                           unwind=16, timeout=2400, mem_gb=10, object_bits=12, flags=['--memory-leak-check'], cost=30 * (m0 + m1 + 1),
+                           desc='%s inductive step with --memory-leak-check: state, one non-throwing operation, destruction: no leak at exit' % cls,
+                           bounds='pre-state %d/%d entries, operations that do not throw' % (m0, m1)))
     return qs
